@@ -14,7 +14,12 @@
     * a volatile view (what system calls observe) and a durable view (what survives power loss)
       of directories, directory entries and file contents;
     * operations mkdir, creatTrunc (open 'wb'), write, fsyncFile, fsyncDir, close, rename
-      (os.replace), unlink, plus the markers begin (a set starts) / ret (the set returns);
+      (os.replace), unlink, plus the markers begin (a set starts) / ret (the set returns) and
+      kill (the writer process dies without data loss and a new process continues on the same
+      directory: histories that chain a process kill and a later power loss);
+    * the model's root `[]` is a durably existing base directory; the store root may be a fresh
+      path below it (its chain of directories is created by `mkdir` like any other, also outside
+      a set — when the store is opened — and is subject to the same persistence rules);
     * `crash` = every image obtainable by keeping the durable view and, independently for each
       unsynced effect, none / all / (for a write) a byte prefix of it;
     * `recover` = what a fresh store reads for a key on such an image;
@@ -98,6 +103,8 @@ inductive Op
   | close (f : Path)
   | rename (src dst : Path)           -- os.replace / os.rename: dst now names src's file
   | unlink (f : Path)
+  | kill                              -- the writer process dies (no data loss): descriptors and the
+                                      -- set in progress are gone, both views of the file system stay
   | ret                               -- the set returns to its caller
 deriving DecidableEq, Repr
 
@@ -169,6 +176,7 @@ def Fs.step (v : Variant) (fs : Fs) : Op → Fs
   | .unlink f =>
     { fs with vfiles := delKV fs.vfiles f, dcont := delKV fs.dcont f, pend := delKV fs.pend f
             , alt := setKV fs.alt f (fileChoices fs f) }
+  | .kill => { fs with opened := [] }
 
 /-- machine state: file system + which set is in progress + the completed sets (latest first) -/
 structure St where
@@ -176,6 +184,8 @@ structure St where
   cur  : Option (Path × Bytes) := none
   done : List (Path × Bytes) := []
   scratch : List Path := []      -- paths other than the key that the set in progress has created
+  dirty : List Path := []        -- keys / scratch paths of sets that a process kill interrupted and
+                                 -- that no completed set has rewritten since: their state is unspecified
 deriving Repr
 
 def init : St := {}
@@ -193,8 +203,11 @@ def step (v : Variant) (s : St) (op : Op) : St :=
   | .begin k val => { s with cur := some (k, val) }
   | .ret =>
     match s.cur with
-    | some kv => { s with cur := none, done := kv :: s.done, scratch := [] }
+    | some kv => { s with cur := none, done := kv :: s.done, scratch := [],
+                          dirty := s.dirty.filter (· != kv.1) }
     | none => { s with scratch := [] }
+  | .kill => { s with fs := s.fs.step v .kill, cur := none, scratch := [],
+                      dirty := (curKey s).toList ++ s.scratch ++ s.dirty }
   | op => { s with fs := s.fs.step v op, scratch := scratchStep (curKey s) s.scratch op }
 
 def run (v : Variant) (s : St) (tr : List Op) : St := tr.foldl (step v) s
@@ -224,18 +237,19 @@ def ok (s : St) : Op → Bool
   | .mkdir d =>
     match s.cur with
     | some (k, _) => (ancestors k).contains d && !s.fs.isDir d && !s.fs.isFile d && s.fs.isDir (parent d)
-    | none => false
+    | none => !s.fs.isDir d && !s.fs.isFile d && s.fs.isDir (parent d)     -- e.g. when the store is opened
   | .creatTrunc f =>
     s.cur.isSome && (allowed s f || (s.done.lookup f).isNone) &&
     !s.fs.opened.contains f && s.fs.isDir (parent f) && !s.fs.isDir f
   | .write f _ => allowed s f && s.fs.opened.contains f
   | .fsyncFile f => allowed s f && s.fs.opened.contains f
-  | .fsyncDir d => s.cur.isSome && s.fs.isDir d
+  | .fsyncDir d => s.fs.isDir d
   | .close f => allowed s f && s.fs.opened.contains f
   | .rename src dst =>
     allowed s src && allowed s dst && src != dst && s.fs.isFile src && !s.fs.opened.contains src &&
     !s.fs.opened.contains dst && !s.fs.isDir dst && s.fs.isDir (parent dst)
   | .unlink f => allowed s f && s.fs.isFile f && !s.fs.opened.contains f
+  | .kill => true
   | .ret =>
     match s.cur with
     | some (k, val) =>
@@ -259,13 +273,15 @@ structure Ghost where
   cur : Option (Path × Bytes) := none
   done : List (Path × Bytes) := []
   scratch : List Path := []
+  dirty : List Path := []
 
 def ghostStep (g : Ghost) : Op → Ghost
   | .begin k v => { g with cur := some (k, v) }
   | .ret =>
     match g.cur with
-    | some kv => { cur := none, done := kv :: g.done, scratch := [] }
+    | some kv => { cur := none, done := kv :: g.done, scratch := [], dirty := g.dirty.filter (· != kv.1) }
     | none => { g with scratch := [] }
+  | .kill => { g with cur := none, scratch := [], dirty := (g.cur.map (·.1)).toList ++ g.scratch ++ g.dirty }
   | op => { g with scratch := scratchStep (g.cur.map (·.1)) g.scratch op }
 
 def ghost (g : Ghost) (tr : List Op) : Ghost := tr.foldl ghostStep g
@@ -273,6 +289,8 @@ def ghost (g : Ghost) (tr : List Op) : Ghost := tr.foldl ghostStep g
 def inProgress (tr : List Op) : Option Path := (ghost {} tr).cur.map (·.1)
 def lastCompleted (tr : List Op) (k : Path) : Option Bytes := (ghost {} tr).done.lookup k
 def scratchOf (tr : List Op) : List Path := (ghost {} tr).scratch
+/-- keys (and temp files) of sets that a process kill interrupted and no completed set has rewritten since -/
+def dirtyOf (tr : List Op) : List Path := (ghost {} tr).dirty
 
 /-! ### crash -/
 
@@ -403,6 +421,7 @@ def showOp : Op → String
   | .close f => s!"close:{showPath f}"
   | .rename a b => s!"rename:{showPath a}:{showPath b}"
   | .unlink f => s!"unlink:{showPath f}"
+  | .kill => "kill"
   | .ret => "ret"
 
 def parseOp (s : String) : Option Op :=
@@ -417,6 +436,7 @@ def parseOp (s : String) : Option Op :=
   | ["rename", a, b] => do pure (.rename (← parsePath a) (← parsePath b))
   | ["unlink", f] => (parsePath f).map .unlink
   | ["ret"] => some .ret
+  | ["kill"] => some .kill
   | _ => none
 
 def parseSk (s : String) : Option Sk :=
@@ -454,7 +474,7 @@ def digest (s : St) : String :=
   let pe := (fs.pend.filter (fun p => !p.2.isEmpty)).map fun p => s!"{showPath p.1}@{p.2.length}"
   s!"vdirs={showSet (fs.vdirs.map showPath)} vfiles={showSet vf} ddirs={showSet (fs.ddirs.map showPath)} " ++
   s!"pendingentries={showSet ((fs.alt.filter (fun p => !p.2.isEmpty)).map fun p => showPath p.1)} dcont={showSet dc} pend={showSet pe} " ++
-  s!"open={showSet (fs.opened.map showPath)} cur={(curKey s).elim "none" showPath} scratch={showSet (s.scratch.map showPath)} done={s.done.length}"
+  s!"open={showSet (fs.opened.map showPath)} cur={(curKey s).elim "none" showPath} scratch={showSet (s.scratch.map showPath)} dirty={showSet (s.dirty.map showPath)} done={s.done.length}"
 
 /-- driver state: variant, machine state, whether every operation so far was well-formed -/
 structure DSt where
